@@ -371,6 +371,11 @@ pub fn run_history<M: IoManager>(
                             obs.fail("C09", "add_commands-count-differs", json!({"ctx": ctx, "got": n, "want": new_count}));
                         }
                         in_trx = probe;
+                        if in_trx.get(0) && !committed.get(0) {
+                            // creating the graph commits the init segment
+                            committed.set(0);
+                            out.committed = committed.clone();
+                        }
                         if cfg.check_blocks {
                             let (bl, stray) = blocks(&log);
                             if stray > 0 {
@@ -390,6 +395,10 @@ pub fn run_history<M: IoManager>(
                         obs.count("parallel_finalize_on_merge_command", 1);
                         out.parallel_finalize = true;
                         drop(trx);
+                        if rep.exists() {
+                            // the graph (its init segment) is committed as soon as it is created
+                            committed.set(0);
+                        }
                         // C05: committed state unchanged.
                         check_committed(rep, model, &committed, &json!({"ctx": ctx, "after": "parallel finalize error in add_commands"}), true, obs);
                         out.committed = committed;
